@@ -416,7 +416,12 @@ func runScenario(sc scenario) string {
 	select {
 	case <-s.booted:
 	case err := <-done:
-		return "result=run-failed-early:" + errStr(err)
+		select {
+		case <-s.booted: // OnBoot asked for shutdown: Run has returned already, both channels were ready
+			done <- err
+		default:
+			return "result=run-failed-early:" + errStr(err)
+		}
 	case <-time.After(5 * time.Second):
 		return "result=no-boot"
 	}
